@@ -513,6 +513,82 @@ def bounded_scipy_instance():
     return Instance('C07', D_ + '*:log_pdf', 'bounded-independent-oracles', make, call, ensures, mode='bounded', bounded_n=150, frame=False)
 
 
+def parameters_changed_after_use_bounded_instance():
+    """log_pdf is a function of the parameters STORED NOW: a distribution object that has been evaluated and whose parameters are then
+    replaced, updated in place, or changed on a shallow copy evaluates like a fresh object built from the new parameters (and the
+    original of a copy like before).  Independent of the closed forms: the oracle is the library's own fresh object."""
+    import copy
+    from pb_bss.distribution import (ComplexAngularCentralGaussian, ComplexWatson, VonMisesFisher, ComplexCircularSymmetricGaussian)
+    from pb_bss.distribution.complex_bingham import ComplexBingham
+
+    def make(B):
+        return {'family': B.choose('family', ['cacg', 'watson', 'vmf', 'bingham', 'ccsg']), 'how': B.choose('how', ['assign', 'inplace', 'copy']),
+                'D': B.choose('D', [2, 3, 4]), 'lead': B.choose('lead', [(), (2,)]), 'seed': B.choose('seed', list(range(3000))), 'd': B.given('d', np.zeros(1))}
+
+    def call(inp):
+        rng = np.random.RandomState(inp['seed'])
+        D, lead = inp['D'], tuple(inp['lead'])
+        fam = inp['family']
+        if fam == 'bingham':
+            lead = ()
+
+        def cn(*s_):
+            return rng.normal(size=s_) + 1j * rng.normal(size=s_)
+
+        def unitary():
+            q, _ = np.linalg.qr(cn(*lead, D, D))
+            return q
+
+        def draw():
+            if fam == 'cacg':
+                ev = np.sort(rng.uniform(0.05, 1.0, size=lead + (D,)), axis=-1)
+                ev[..., -1] = 1.0
+                return {'covariance_eigenvectors': unitary(), 'covariance_eigenvalues': ev}
+            if fam == 'watson':
+                m = cn(*lead, D)
+                return {'mode': m / np.linalg.norm(m, axis=-1, keepdims=True), 'concentration': rng.uniform(0.5, 30.0, size=lead)}
+            if fam == 'vmf':
+                m = rng.normal(size=lead + (D,))
+                return {'mean': m / np.linalg.norm(m, axis=-1, keepdims=True), 'concentration': rng.uniform(0.5, 30.0, size=lead)}
+            if fam == 'bingham':
+                ev = -np.sort(rng.uniform(0.5, 20.0, size=(D,)))[::-1].copy()
+                ev[-1] = 0.0
+                return {'covariance_eigenvectors': unitary(), 'covariance_eigenvalues': ev}
+            a = cn(*lead, D, D)
+            return {'covariance': a @ np.conj(np.swapaxes(a, -1, -2)) + 0.1 * np.eye(D)}
+        cls = {'cacg': ComplexAngularCentralGaussian, 'watson': ComplexWatson, 'vmf': VonMisesFisher, 'bingham': ComplexBingham,
+               'ccsg': ComplexCircularSymmetricGaussian}[fam]
+        y = rng.normal(size=lead + (7, D)) if fam == 'vmf' else cn(*lead, 7, D)
+        if fam != 'ccsg':
+            y = y / np.linalg.norm(y, axis=-1, keepdims=True)
+        p0, p1 = draw(), draw()
+        obj = cls(**{k: v.copy() for k, v in p0.items()})
+        first = np.array(obj.log_pdf(y))
+        target = obj
+        if inp['how'] == 'copy':
+            target = copy.copy(obj)
+        for k, v in p1.items():
+            if inp['how'] == 'inplace':
+                getattr(target, k)[...] = v
+            else:
+                setattr(target, k, v.copy())
+        second = np.array(target.log_pdf(y))
+        fresh = np.array(cls(**{k: v.copy() for k, v in p1.items()}).log_pdf(y))
+        res = {'first': first, 'second': second, 'fresh': fresh}
+        if inp['how'] == 'copy':
+            res['original_again'] = np.array(obj.log_pdf(y))
+        return res
+
+    def ensures(sp, inp, out):
+        yield 'evaluates-at-the-parameters-stored-now[%s,%s]' % (inp['family'], inp['how']), bool(np.allclose(out['second'], out['fresh'], rtol=1e-9, atol=1e-9))
+        yield 'finite', bool(np.all(np.isfinite(out['second'])))
+        if 'original_again' in out:
+            yield 'original-of-a-copy-unchanged[%s]' % inp['family'], bool(np.allclose(out['original_again'], out['first'], rtol=1e-12, atol=1e-12))
+
+    return Instance('C07', D_ + 'complex_angular_central_gaussian:ComplexAngularCentralGaussian.log_pdf', 'bounded-parameters-changed-after-use', make, call, ensures,
+                    mode='bounded', bounded_n=150, frame=False)
+
+
 def instances(tier):
     th = tier == 'thorough'
     out = []
@@ -548,3 +624,10 @@ _inst_before_lemmas = instances
 def instances(tier):       # noqa: F811
     from .common import lemma_instance
     return _inst_before_lemmas(tier) + [lemma_instance('C07', 'logdet', 'lemma:log-det-of-a-cholesky-factorisation')]
+
+
+_instances_before_history = instances
+
+
+def instances(tier):       # noqa: F811
+    return _instances_before_history(tier) + [parameters_changed_after_use_bounded_instance()]
